@@ -131,6 +131,16 @@ CLAIMED = {
         "Only the equivalences the statement lists; flag-subcommand forms excluded (index base differs legitimately); trusted base as C02.",
         "DESIGN.md section 4, C08",
     ),
+    "C09": (
+        "proptest random search over command trees with globals, flag subcommands and external subcommands x spelled invocations; reference model (per-level expectation + strongest-deepest-origin rule for globals) as oracle; shrinking",
+        "Trees of depth <= 3 with aliases, long/short flag subcommands and flag aliases, an external-subcommand level, up to four global "
+        "arguments defined at any level; invocations give globals at any subset of levels. The reported chain must be the intended one, "
+        "external arguments verbatim, every level's non-global arguments as expected against that level's own definition, and each "
+        "global identical (values and source) at every level at or below its definition: the occurrence of the deepest level among those "
+        "with the strongest origin.",
+        "Global ids unique in the tree; the external level has no positionals; indices of propagated values not compared.",
+        "DESIGN.md section 4, C09",
+    ),
     "C11": (
         "proptest stateful testing: random histories of parse/build/render/clone steps on one Command value, differential oracle against a fresh definition per step, shrinking of the whole history",
         "For generated trees and a pool of argv sharing argv[0], histories of up to 12 steps (ParseMut, Build twice with Debug "
